@@ -538,7 +538,8 @@ class Epoch(object):
             elif isinstance(args[0], datetime.datetime) or isinstance(
                 args[0], datetime.date
             ):
-                t = Epoch(args[0].year, args[0].month, args[0].day, **kwargs)
+                # Epoch handles both types, keeping the time of day of datetime
+                t = Epoch(args[0], **kwargs)
             else:
                 raise TypeError("Invalid input type")
         elif len(args) == 2:
